@@ -209,6 +209,11 @@ theorem post_step (cfg : Cfg) (pm : Perm) (hk : pm.clk = false) (hv : pm.ev = fa
     refine ⟨?_, ?_, Or.inr rfl, h4, h5⟩ <;> simp only [Act.apply, Core.restartFinish] <;> split <;> simp_all
   case stopFinish =>
     refine ⟨?_, ?_, ?_, ?_, ?_⟩ <;> simp only [Act.apply, Core.stopFinish, Core.writeImage] <;> split <;> assumption
+  case stopFinishC fx d =>
+    refine ⟨?_, ?_, ?_, ?_, ?_⟩ <;> simp only [Act.apply, Core.stopFinish, Core.writeImage] <;> split <;>
+      simpa using by assumption
+  case restartMidC fx =>
+    refine ⟨?_, ?_, ?_, ?_, ?_⟩ <;> simp only [Act.apply, Core.restartMid] <;> simpa using by assumption
   case write =>
     refine ⟨?_, ?_, ?_, ?_, ?_⟩ <;> simp only [Act.apply, Core.writeImage] <;> split <;> assumption
   case ev e => simp [Act.enabled, hv] at hen
@@ -403,6 +408,10 @@ theorem zeroRel_step (cfg : Cfg) (hc : cfg.clocks = true) (pm : Perm) (hk : pm.c
     refine Or.inr (Or.inl ?_)
     simp only [Act.apply, Core.stopFinish, Core.writeImage]; split <;> rfl
   case restartMid => exact Or.inr (Or.inl rfl)
+  case stopFinishC fx d =>
+    refine Or.inr (Or.inl ?_)
+    simp only [Act.apply, Core.stopFinish, Core.writeImage]; split <;> rfl
+  case restartMidC fx => exact Or.inr (Or.inl rfl)
   case write => simp only [ZeroRel, Act.apply, Core.writeImage] at h ⊢; split <;> exact h
   case ev e =>
     cases e <;> simp only [ZeroRel, Act.apply, Core.event] at h ⊢ <;> first | exact h | (split <;> exact h)
@@ -467,6 +476,12 @@ theorem monoRel_step (cfg : Cfg) (pm : Perm) (hk : pm.clk = false) (r : Nat) (p 
     · simp only [Act.apply, Core.stopFinish, Core.writeImage]; split <;> exact h1
     · simp only [Act.apply, Core.stopFinish, Core.writeImage] at hr; split at hr <;> cases hr
   case restartMid => exact ⟨h1, fun hr => by simp [Act.apply, Core.restartMid] at hr⟩
+  case stopFinishC fx d =>
+    refine ⟨?_, fun hr => ?_⟩
+    · simp only [Act.apply, Core.stopFinish, Core.writeImage]; split <;> simpa using h1
+    · simp only [Act.apply, Core.stopFinish, Core.writeImage] at hr; split at hr <;> cases hr
+  case restartMidC fx =>
+    exact ⟨by simpa [Act.apply, Core.restartMid] using h1, fun hr => by simp [Act.apply, Core.restartMid] at hr⟩
   case write => refine ⟨?_, ?_⟩ <;> simp only [Act.apply, Core.writeImage] <;> split <;> assumption
   case ev e =>
     cases e <;> refine ⟨?_, ?_⟩ <;> simp only [Act.apply, Core.event] <;>
